@@ -12,7 +12,7 @@
       that class, with exactly the hypotheses the proof forces;
     - the transaction root alone does not separate leaves from inner nodes
       ([c20_inner_node_confusion]); [c20_tx_root_binds] carries the corresponding disjunct. *)
-From Coq Require Import List Bool Arith NArith.
+From Coq Require Import List Bool Arith NArith Lia.
 Import ListNotations.
 From Ont Require Import Lib.Bytes Gen.CodecConsts Model.Codec Model.BlockCodecTypes Gen.BlockLayout
   Model.BlockCodec Proofs.BlockCodec Proofs.BlockMerkle Proofs.C20.
@@ -215,7 +215,7 @@ Proof.
   { intros r id n. unfold toy_tx. destruct r as [|a [|t r']]; try discriminate.
     destruct ((2 <=? a) && (a <=? N.of_nat (length (a :: t :: r')))) eqn:C; [|discriminate].
     intro E; inversion E; subst. apply andb_prop in C. destruct C as [_ C]. apply N.leb_le in C.
-    apply Nat2N.inj_le. rewrite N2Nat.id. exact C. }
+    lia. }
   split; [vm_compute; reflexivity|].
   split; [eexists; eexists; split; [vm_compute; reflexivity|repeat split; vm_compute; reflexivity]|].
   split; vm_compute; reflexivity.
